@@ -276,3 +276,5 @@ def run(ctx):
     # R7.12: what a resolver is made of is its own and live: the handler table a caller edits is the one retrieval consults (toggling a handler)
     from .c18 import rule_per_validator_resolver
     rule_per_validator_resolver(ctx, "R7.12")
+    from . import scope as _sc
+    _sc.rule_scope_in_force(ctx, "R7.13")
